@@ -11,6 +11,7 @@ without a position):
 The random sampler is a parameter: a run is determined by the list of indices it drew.
 -/
 import ChessVerif.Model.Book
+import ChessVerif.Model.Engine
 
 namespace Chess.Cli
 open Chess
@@ -46,5 +47,44 @@ def bookPhase : Nat → Nat → Board → List Nat → Except Trap Board
         match b.moveNew ⟨s, d, none⟩ with
         | none => .error .assertMoveMut
         | some b' => bookPhase fuel c b' rest
+
+end Chess.Cli
+
+namespace Chess.Cli
+open Chess
+
+/-! ### the game loop of `OnBoard` (after the book phase)
+
+    loop { let (mv, score) = engine.search(&board, &three_fold, DurationTimeout::new(5000 ms));
+           let Some(mv) = mv else { println!("DRAW (MATERIAL)"); break };
+           assert!(board.move_mut(mv));
+           if three_fold.add(board) { println!("DRAW (THREE FOLD)"); break }
+           if board.legals().is_empty() { println!(if board.in_check() {"WIN"} else {"DRAW (NO LEGAL MOVES)"}); break } }
+
+The wall clock is a parameter: a run is determined by the poll index at which each search's timeout expires. -/
+
+inductive Outcome
+  | noMove | threeFold | win | noLegalMoves
+  /-- the expiry indices given are used up: the program would go on -/
+  | stillPlaying
+  deriving DecidableEq, Repr
+
+def gameLoop : Nat → Board → Engine.ThreeFold → Nat → List Nat → Except Trap (Outcome × Board)
+  | 0, b, _, _, _ => .ok (.stillPlaying, b)
+  | fuel + 1, b, tf, prevDepth, ks =>
+    match ks with
+    | [] => .ok (.stillPlaying, b)
+    | k :: ks' =>
+      let r := Engine.search b tf k prevDepth
+      match r.move with
+      | none => .ok (.noMove, b)
+      | some mv =>
+        match b.moveNew mv with
+        | none => .error .assertMoveMut
+        | some b' =>
+          let (tf', three) := Engine.ThreeFold.add tf b'
+          if three then .ok (.threeFold, b')
+          else if (MoveGen.legals b').isEmpty then .ok (if b'.inCheck then .win else .noLegalMoves, b')
+          else gameLoop fuel b' tf' r.maxDepth ks'
 
 end Chess.Cli
